@@ -3,11 +3,13 @@ import refs_cases
 
 ID = "C05"
 PROPERTIES_FILE = "Properties/C05.v"
-COQ_TARGETS = ["Properties/C05.vo", "Refs/Cases.vo", "Refs/RefProofs.vo", "Refs/RefStep.vo", "Refs/LifeProofs.vo", "Refs/LifeStep.vo", "Refs/ErrPaths.vo", "Refs/Disconnect.vo", "Refs/Ordered.vo", "Refs/Ranked.vo", "Refs/RankedFs.vo", "Refs/FenceProofs.vo"]
+COQ_TARGETS = ["Properties/C05.vo", "Refs/Cases.vo", "Refs/RefProofs.vo", "Refs/RefStep.vo", "Refs/LifeProofs.vo", "Refs/LifeStep.vo", "Refs/ErrPaths.vo", "Refs/Disconnect.vo", "Refs/Ordered.vo", "Refs/Ranked.vo", "Refs/RankedFs.vo", "Refs/FenceProofs.vo", "Refs/GenTie.vo"]
 LEVEL = "proof"
 TECHNIQUE = ("Coq theorems (all backends, all states) over a hand-written sequential Gallina model of fidRef reference counting, the DecRef "
              "cascade, the fid tables and connState.stop; model tied to the code by a differential against the real Server.Handle driven "
-             "over net.Pipe with a counting, failure-injecting, path-addressed backend; lifecycle predicate evaluated on the observed call log")
+             "over net.Pipe with a counting, failure-injecting, path-addressed backend; lifecycle predicate evaluated on the observed call log; "
+             "static tie: go2coq/RefsGen extracts the event skeletons (calls, order, path conditions incl. early returns, closure/defer/loop "
+             "context) of DecRef, notifyDelete, markChildDeleted, notifyNameChange, renameChildTo, stop, LookupFID/InsertFID/DeleteFID and doWalk and Coq checks them equal to a table reviewed against the model")
 LEVEL_TEXT = ("Proved in Coq by induction over ALL request histories from the initial state, for EVERY backend (every success/failure choice "
               "of every backend call): C05_inv (refs = #fid-table entries + #transient holders + #live children + #live xattr borrowers; the DecRef "
               "cascade never runs out of fuel - no acyclicity needed), File ownership (every returned handle owned by exactly one fidRef, xattr fidRefs "
@@ -20,7 +22,8 @@ LEVEL_TEXT = ("Proved in Coq by induction over ALL request histories from the in
               "C05_disconnect_refuted shows by computation that without B2 two fidRefs become each other's parent and their Files leak. Every run "
               "re-checks the proofs, replays generated histories on the real server (failure injected at every backend-call index of the corpus, "
               "connection cut after every byte of short sessions, fid replacement, xattr fids, create-rebinding) plus gated concurrent scenarios "
-              "(rename while a child's last DecRef is parked in Close; rename whose Renamed callback overlaps a disconnect), evaluates the stated "
+              "(rename while a child's last DecRef is parked in Close; rename whose Renamed callback overlaps a disconnect) and a fault scenario "
+              "(backend panic inside the Renamed notification one / two levels below a renamed directory, then every connection dropped), evaluates the stated "
               "clauses on the observed backend call log independently of the model, and compares replies, call logs and the path tree with the model.")
 LEVEL_NOTE = ("What is what. PROVED for the model (history theorems, every backend): count invariant, closed at most once, closed iff "
               "unreferenced, no call on a File after its Close (as receiver or argument, Renamed included), failing walk/attach closes what it "
@@ -30,11 +33,15 @@ LEVEL_NOTE = ("What is what. PROVED for the model (history theorems, every backe
               "call log only, no model involved): no File used after its Close or closed twice; after a complete disconnect every File closed "
               "exactly once, Handle returned, goroutine delta 0; a Twalk/Tattach answered with an error has closed every File it was handed. A "
               "history on which the implementation and the model disagree (replies, per-request call log, path-tree dump) is reported as a "
-              "VIOLATION with that history as replay. NOT covered: interleavings beyond the gated scenarios (sequential model; C06/C07/C16), B2 for "
+              "VIOLATION with that history as replay. Backend PANICS are outside the model (no panic answer): the disconnect clause after a panic inside a rename notification is tested by the fault scenario and its code-side mechanism (deferred release of the held references) is pinned by C05_held_references_released_by_defer, not proved. NOT covered: interleavings beyond the gated scenarios (sequential model; C06/C07/C16), B2 for "
               "backends other than PathFS (hypothesis [rsafe]: relating a backend's notion of 'below' to the server's tree is path coherence, "
               "proved for PathFS only), the Tattach branch !valid.Mode (same exit as a GetAttr error). The harness reads unexported fields "
               "(pathNode.childRefs/childRefNames/childNodes/deleted, fidRef.file, server.pathTree): renaming one breaks its compilation and is "
-              "reported as a violation. The model is tied to the Go code by the differential only.")
+              "reported as a violation. STATIC TIE (C05_code_skeleton, C05_decref_drops_parent_unconditionally, C05_clone_takes_parent_reference): "
+              "the generated event skeletons of the ten functions equal a table reviewed by hand against Refs/Model.v - an equality with a reviewed "
+              "table, not a semantics of Go; it is invariant under renaming locals, error re-wrapping, inverted guards with early return and "
+              "a && b vs nested ifs, and changes when one of the tracked calls is dropped, added, reordered or re-guarded. Everything else of the "
+              "model (the handlers' guards, fid tables, walkOne, removeWithName's loop) is tied to the Go code by the differential only.")
 DESIGN_REF = "6/C05"
 ASSUMPTIONS = [
     "requests of all connections are processed one at a time (sequential model); Go map iteration order only permutes Renamed/Close runs",
@@ -46,6 +53,7 @@ TRUSTED_BASE = [
     "axioms: none (Print Assumptions: closed under the global context for every property theorem)",
     "hand-written model Refs/Model.v + Refs/PathFS.v, tied by harness/p9/c05_test.go, vhfs_*_test.go + Refs/Cases.v",
     "the harness backend vhfs (Go twin of PathFS.v), its call log and failure injection; lib/refs_cases.py (observations -> Coq terms)",
+    "tools/go2coq/refsgen.go (syntactic event-skeleton extraction, no type checker) and the hand review of Refs/GenTie.v's table against Refs/Model.v",
 ]
 HARNESS = ["vh_common_test.go", "vhfs_backend_test.go", "vhfs_driver_test.go", "vhfs_gen_test.go", "vhfs_gated_test.go", "c05_test.go"]
 TEST = "^TestVerifC05$"
@@ -109,7 +117,7 @@ def run(ctx):
 
 RULE = ("fixed corpus (xattr fids, failing multi-step walks, fid replacement, create-rebinding, attach paths, two connections) with a failure "
         "injected at EVERY backend call index; short sessions cut after every byte of every frame; random histories plain / with injected "
-        "EIO, ENOENT, wrong-QID-count / cut at a random byte / left connected; distinct_nontrivial = distinct (steps, injection) records with >= 3 requests in which at least one File was closed, plus the gated scenarios; samples = the injected-failure history with the most backend calls, the complete history with the most successful rename/unlink requests, one gated scenario")
+        "EIO, ENOENT, wrong-QID-count / cut at a random byte / left connected; 8 Renamed-panic-then-disconnect scenarios; distinct_nontrivial = distinct (steps, injection) records with >= 3 requests in which at least one File was closed, plus the gated scenarios; samples = the injected-failure history with the most backend calls, the complete history with the most successful rename/unlink requests, one gated scenario")
 
 
 def slim(o):
